@@ -167,7 +167,6 @@ func VerifH_C05_a() {
 //
 // verif:stub (*core/vm.Memory).GetPtr => stubGetPtr
 // verif:stub rlp.DecodeBytes => stubRlpDecode
-// verif:tier thorough
 func VerifH_C05_a0() {
 	vFact("regime", "pre-fork")
 	opETXHarness(false)
@@ -241,7 +240,6 @@ func VerifH_C05_b() {
 
 // H-C05-b0: the same before the fork (historic regime).
 //
-// verif:tier thorough
 func VerifH_C05_b0() {
 	vFact("regime", "pre-fork")
 	opConvertHarness(false)
